@@ -114,6 +114,11 @@ class CppEmitter:
             if t[2]:
                 post.append(("mutslice", a, len(items), t, pname))
             post.append(("free", a))
+            if (len(items) + len(pre)) % 3 == 0:
+                # a span that is declared first and assigned later (copy assignment of the bundled C++17 span / std::span)
+                sp = self.fresh("sp")
+                pre.append("%s %s; %s = %s(%s, %d);" % (cty, sp, sp, cty, a, len(items)))
+                return sp
             return "%s(%s, %d)" % (cty, a, len(items))
         if k == "oslice":
             ety = C_PRIM[t[1]]
